@@ -19,14 +19,26 @@ CHECKS = {
          "Tie: the whole outcome × retry-state × recurrence × result × converter table is run on the real Worker (in-memory broker, virtual time, jobs concurrent in one worker) and every delivery's broker calls/stores/body/callbacks are compared with the model; the property is evaluated on the observation.",
          "in-memory broker; thread/process pools not exercised; one genuine defect (F8) repaired by fix: commit 4db1223.",
          "Lean 4 proof (case analysis, unbounded in retry counters) + exhaustive-table differential correspondence", "§5 C02"),
+ "C04": ("Lean: the FULL statement as one theorem (C04.chain_ok): for every N ≥ 0, every failure pattern, every retry policy, duration and latency profile, recurring or not, the chain of executions of one scheduling satisfies chainOk — counters 0,1,2…, at most N+1 executions, exactly N+1 then dead-lettered/rescheduled when all fail, a success ends the chain with ack, the k-th retry not before failure + policy(k); plus counter_step, counter_bounded, chain_length, success_ends. "
+         "Tie: retry chains on the real Worker (all bitmasks for small N, exception/timeout, four policies, forced retries) — per-delivery comparison with the model and chainOk evaluated on the observed chain.",
+         "in-memory broker (Redis/RabbitMQ back-off delivery: see C05).",
+         "Lean 4 proof (induction over the chain, unbounded N) + differential correspondence", "§5 C04"),
  "C05": ("Lean: invariant 'every waiting message that had a due time is past it' preserved by every atom, hence for ALL valid histories a normal poll never hands out a message before its due time (mem_never_early_partial; refutation witness for returns out of a DELAYED hold); update_moves_all_due + poll_progress for 'never forgotten'. "
          "Tie: snapshot correspondence in random sessions; notEarlyMs/latencyOk evaluated on every delivery of the real broker in sessions and in listening scenarios (due offsets × consumer phases × enqueue orders, virtual time).",
          "in-memory broker only so far; wall-clock jitter of sleep() is runtime; latency is proved per poll and sampled end-to-end.",
          "Lean 4 proof (invariant over atom histories) + differential correspondence + virtual-time scenarios", "§5 C05"),
+ "C06": ("Lean: one_successor (exactly one requeue after every completed iteration, with C02), reset, window (now < next ≤ now + period, on the grid, via C19), successorOk_model, first_run_honours_deferred_until, spacing_partial + refutation spacing_witness. "
+         "Tie: recurring jobs on the real Worker over virtual time (periods × duration profiles × outcome patterns × deferred_until), successorOk on every requeue, message count after every iteration, spacingOk on consecutive scheduled times.",
+         "cron branch not exercised (croniter absent); spacing clause PARTIAL (known finding F5).",
+         "Lean 4 proof (arithmetic + case analysis) + differential correspondence over virtual time", "§5 C06"),
  "C12": ("Lean: a normal poll never returns an overdue message (mem_no_expired_delivery), an overdue head is dead-lettered and stays retrievable (mem_expired_to_dead, mem_dead_retrievable), nothing but nack or an overdue poll adds to the dead letters (mem_live_not_dropped, all atoms), boundary and TTL-clock theorems. "
          "Tie: sessions + exhaustive boundary table (ttl × message kind × −1/0/+1 µs) + idle-consumer arrivals on the real broker.",
          "in-memory broker only so far.",
          "Lean 4 proof (case analysis over all atoms) + differential correspondence + boundary enumeration", "§5 C12"),
+ "C13": ("Lean: execution_stores_own_outcome, latest_wins, disabled_writes_nothing (all outcomes incl. every eager prefix), store_failure_harmless (ALL outcomes, after fix 4db1223), eager_last_set. "
+         "Tie: real Worker + result bucket broker: Job.result read back after EVERY execution on fresh and long-lived Job objects (values, exceptions, retry chains, eager set_result/set_exception, reused result ids), per-delivery store comparison with the model, fault enumeration over the failing store_bucket call.",
+         "in-memory bucket broker; time_ns monotone.",
+         "Lean 4 proof (case analysis/induction over declarations) + differential correspondence + fault enumeration", "§5 C13"),
  "C14": ("Lean: invariant (ids unique, one believer per id, beliefs backed by processing entries) preserved by every atom; for ALL histories of any number of consumers satisfying StepOk at most one consumer believes it holds a message (mem_single_holder_partial, success_once); refutation witness for finish() with a foreign holder. "
          "Tie: multi-consumer sessions on the real broker with singleHolder evaluated after every call.",
          "in-memory broker only so far; PARTIAL: finish() while another consumer holds a message is excluded (known finding F3).",
@@ -35,6 +47,10 @@ CHECKS = {
          "Tie: single-consumer sessions (backlog 1…35, foreign topics, rejects) on the real broker: inOrder on enqueue vs delivery order.",
          "in-memory broker only so far.",
          "Lean 4 proof (view refinement) + differential correspondence", "§5 C15"),
+ "C16": ("Lean: at_most_one_broker_call for EVERY call sequence/category/retry state, used_handle_refuses, category_refusals, retry_budget_refusal_keeps_handle, refusals_keep_handle, final_eq_spec (callbacks after an eager response = registration order with the store in the place of the latest set_*: full statement), body_stops. "
+         "Tie: all call sequences up to length 3 (thorough; sampled in quick) + random long ones on real Message objects vs Handle.calls; random set_*/add_callback prefixes through the real Worker vs the model and Pred.C16.orderOk.",
+         "sequential calls only.",
+         "Lean 4 proof (induction over call sequences / declarations) + exhaustive small-scope differential correspondence", "§5 C16"),
  "C19": ("Lean theorems (all retry numbers, all timestamps/periods, unbounded Int/Nat) about Sched.backoff/nextDefer/computeNext/overdue; "
          "the model functions are compared with the real retry policy, compute_next_execution_time, _prepare_* and the four is_overdue copies under a pinned clock, "
          "and the Lean predicates are evaluated on the implementation's values.",
